@@ -31,6 +31,7 @@ DIMS = {
     "bom": ["no", "yes"],
     "trail": ["none", "spaces", "tab", "comment"],        # what follows the header on its line
     "indent": ["no", "yes"],
+    "mention": ["none", "comment", "comment_end", "string"],   # the header string mentioned before the section header
     "outcome": ["ok", "dup_locales", "dup_namespaces", "unknown_locale", "default_inherits", "missing_field", "not_found", "deser"],
 }
 
@@ -124,7 +125,8 @@ def tags(cfg, fmt, files):
          "dir": dir_kind(cfg["locales_dir"])}
     tx = cfg.get("text") or {}
     o.update({"eol": tx.get("eol", "lf"), "head": tx.get("head", "std"), "final_nl": "yes" if tx.get("final_nl", True) else "no",
-              "bom": "yes" if tx.get("bom") else "no", "trail": tx.get("trail", "none"), "indent": "yes" if tx.get("indent") else "no"})
+              "bom": "yes" if tx.get("bom") else "no", "trail": tx.get("trail", "none"), "indent": "yes" if tx.get("indent") else "no",
+              "mention": tx.get("mention", "none")})
     o["dpos"] = None
     if have_l and d is not None:
         o["dpos"] = "unlisted" if d not in ls else ("first", "second")[ls.index(d)] if ls.index(d) < 2 else "later"
@@ -192,7 +194,7 @@ def tags(cfg, fmt, files):
     return [o]
 
 
-COMMON = {"outcome", "malformed", "surround", "unknown", "fmt", "req", "eol", "head", "final_nl", "bom", "trail", "indent"}
+COMMON = {"outcome", "malformed", "surround", "unknown", "fmt", "req", "eol", "head", "final_nl", "bom", "trail", "indent", "mention"}
 VISIBLE = {
     "deser": COMMON,
     "missing_field": COMMON | {"inh_form", "pad"},
@@ -233,6 +235,8 @@ def compatible(d, v, o):
 def structural(d1, v1, d2, v2):
     if d1 == "eol" and v1 == "lone_cr" and d2 == "head" and v2 == "none":
         return "the lone carriage return sits in a line before the header"
+    if d1 == "mention" and d2 == "head" and ((v1 != "none" and v2 == "none") or (v1 == "string" and v2 == "one")):
+        return "a mention is a line, or a string of the [package] table, before the header"
     if d1 == "surround" and v1 in ("before", "both") and d2 == "head" and v2 in ("none", "one", "two"):
         return "other tables before the section come with the standard or long preamble"
     if d1 == "malformed" and d2 == "req" and ((v1 in ("type_default", "dup_key") and v2 == "missing_default") or
@@ -455,7 +459,9 @@ def build(rng, sc):
                                                                  'locales_dir = "nope"', 'Default = "zz"'], rng.choice([1, 2])),
            "order": rng.random(), "inherits_as_table": sc["inh_form"] == "subtable",
            "text": {"eol": sc["eol"], "head": sc["head"], "final_nl": sc["final_nl"] == "yes", "bom": sc["bom"] == "yes",
-                    "trail": sc["trail"], "indent": sc["indent"] == "yes", "mention": "none"}}
+                    "trail": sc["trail"], "indent": sc["indent"] == "yes", "mention": sc["mention"]}}
+    if sc["mention"] != "none" and (sc["head"] == "none" or (sc["mention"] == "string" and sc["head"] == "one")):
+        return None
     if (sc["eol"] == "lone_cr" and sc["head"] == "none") or (before and sc["head"] in ("none", "one", "two")):
         return None
     fmt = sc["fmt"]
